@@ -24,6 +24,9 @@ type VerifSnap struct{ S *Snapshotter }
 // VerifNewSyncSnapshotter is NewSnapshotter without `go teeStream()` / `go stream()`.
 func VerifNewSyncSnapshotter(path string, minCompactSize int, rejoinAfterLeave bool,
 	logger *log.Logger, clock *LamportClock) (*VerifSnap, error) {
+	if err := verifSnapRecover(path); err != nil {
+		return nil, fmt.Errorf("failed to recover compacted snapshot: %v", err)
+	}
 	fh, err := verifSnapOpen(path)
 	if err != nil {
 		return nil, fmt.Errorf("failed to open snapshot: %v", err)
